@@ -156,6 +156,7 @@ static void split_dst_src(io_coro fn) {
 
 void harness_split_transform(void) { split_dst_src(call_transform); }
 void harness_split_f6(void) { split_dst_src(wuffs_demo__parser__f6); }
+void harness_split_f9(void) { split_dst_src(wuffs_demo__parser__f9); }
 
 // ---- std hashers: update over a partition equals update over the whole ----
 
